@@ -170,6 +170,26 @@ Proof.
 Qed.
 End Proofs.
 
+(* The locality conditions follow from how control_flow.py selects the state variables (property C02, theorem
+   state_complete): if every assigned name that is live into or out of the statement is a state variable
+   (declared nonlocal), then no local of the generated body function -- an assigned name that is not a state
+   variable -- is live there. *)
+Lemma locals_not_live (L M S li out : list var) :
+  subset L (minus M S) = true ->
+  (forall x, mem x M = true -> mem x li = true \/ mem x out = true -> mem x S = true) ->
+  disjoint L li = true /\ disjoint L out = true.
+Proof.
+  intros HL HS. assert (K : forall x, mem x L = true -> mem x M = true /\ mem x S = false).
+  { intros x Hx. pose proof (subset_spec _ _ HL x Hx) as Hm. rewrite mem_minus in Hm.
+    apply andb_true_iff in Hm. destruct Hm as [A B]. apply negb_true_iff in B. auto. }
+  assert (D : forall X, (forall x, mem x X = true -> mem x li = true \/ mem x out = true) -> disjoint L X = true).
+  { intros X HX. unfold disjoint. apply forallb_forall. intros x Hx.
+    assert (Hm : mem x L = true) by (unfold mem; apply existsb_exists; exists x; split; [exact Hx | apply Nat.eqb_refl]).
+    destruct (K x Hm) as [A B]. destruct (mem x X) eqn:E; [|reflexivity].
+    rewrite (HS x A (HX x E)) in B. discriminate. }
+  split; apply D; auto.
+Qed.
+
 (* every terminating, non-stuck run of the original from a store is matched by the functional form started in
    any store that agrees on what is live at entry: same events with the same values read, same decisions
    consumed, and the final stores agree on the variables in O (what is live at the exit) *)
